@@ -384,8 +384,66 @@ def gen_C19(rng, tier):
     return scn
 
 
+def gen_C20(rng, tier):
+    n = rng.randint(1, 5)
+    kinds = ["dep-root", "dep-param", "dep-list", "dep-nested", "dep-plain"]
+    scn = {"tasks": [{"kind": rng.choice(kinds), "deps": []} for _ in range(n)], "tokens": [], "procs": [], "jobfaults": [],
+           "cfg": {"set_order": True, "trace": False, "preempt": 0, "pid_reuse": False, "results": True, "tree": True}}
+    if rng.random() < 0.2:
+        add_failures(rng, scn, 0.3)
+    plan = simple_plan(rng, n, waits=True) + [["xpwait"]]
+    scn["procs"].append({"xp": "x0", "variant": "old", "plan": plan})
+    scn["procs"].append({"kind": "deprecate", "start": {"after_exit": 0, "jobs_ended": True}})
+    nfix = rng.randint(1, 3)
+    for i in range(nfix):
+        last = i == nfix - 1
+        op = {"fix": True if last else rng.random() < 0.8, "cleanup": rng.random() < 0.5}
+        spec = {"kind": "fix", "ops": [op], "start": {"after_exit": len(scn["procs"]) - 1}}
+        if not last and rng.random() < 0.7:
+            spec["crash"] = {"sig": "KILL", "trigger": {"line_frac": rng.random()}}
+        elif last and rng.random() < 0.25:
+            spec["ops"].append({"fix": True, "cleanup": rng.random() < 0.5})
+        scn["procs"].append(spec)
+    scn["procs"].append({"xp": "x0", "variant": "new", "plan": simple_plan(rng, n, waits=False) + [["xpwait"]],
+                         "start": {"after_exit": len(scn["procs"]) - 1}})
+    return scn
+
+
+def gen_C14(rng, tier):
+    scn = base(rng, 1, 5, p_dep=0.75)
+    n = len(scn["tasks"])
+    scn["cfg"]["c14"] = True
+    if rng.random() < 0.3:
+        add_tokens(rng, scn, kinds=("file", "proc"), max_tokens=1)
+    if rng.random() < 0.15:
+        add_failures(rng, scn, 0.3)
+    plan = []
+    order = list(range(n))
+    rng.shuffle(order)
+    submitted = []
+    for x in order:
+        plan.append(["submit", x])
+        submitted.append(x)
+        for _ in range(rng.randint(0, 3)):
+            r = rng.random()
+            if r < 0.25:
+                plan.append(["yield", rng.randint(1, 6)])
+            else:
+                kind = rng.choice(["assign", "assign", "assign-none", "set_meta", "add_pretasks", "identifier"])
+                # any task whose upstreams were auto-submitted is a legal target as well
+                plan.append(["mutate", rng.choice(submitted + list(range(n))), rng.randint(0, 7), kind])
+        if rng.random() < 0.3:
+            plan.append(["wait", rng.choice(submitted)])
+    for _ in range(rng.randint(0, 3)):
+        plan.append(["mutate", rng.randrange(n), rng.randint(0, 7), rng.choice(["assign", "set_meta", "add_pretasks", "assign-none"])])
+    plan.append(["xpwait"])
+    scn["procs"].append({"xp": "x0", "plan": plan})
+    maybe_trace(rng, scn, 0.15)
+    return scn
+
+
 PROFILES = {
-    "C04": gen_C04, "C05": gen_C05, "C06": gen_C06, "C07": gen_C07, "C08": gen_C08, "C09": gen_C09, "C11": gen_C11, "C16": gen_C16, "C19": gen_C19,
+    "C04": gen_C04, "C05": gen_C05, "C06": gen_C06, "C07": gen_C07, "C08": gen_C08, "C09": gen_C09, "C11": gen_C11, "C16": gen_C16, "C19": gen_C19, "C20": gen_C20, "C14": gen_C14,
 }
 
 
